@@ -506,10 +506,13 @@ start:
 			case *ir.MultiConvert:
 				s.set(v, s.get(v.X))
 			case *ir.Load:
+				// Set Inner, too: a loaded interface value may hold anything.
+				// Leaving Inner unset would let the Inner of other values win
+				// when control flow merges.
 				if _, ok := v.X.(*ir.Global); ok {
-					s.setOuter(v, MaybeNilGlobal)
+					s.set(v, ValueNilness{Inner: MaybeNil, Outer: MaybeNilGlobal})
 				} else {
-					s.setOuter(v, MaybeNil)
+					s.set(v, ValueNilness{Inner: MaybeNil, Outer: MaybeNil})
 				}
 				s.setOuter(v.X, NeverNil)
 			case *ir.FieldAddr:
